@@ -822,11 +822,16 @@ pub struct Plan {
 	pub hold_ms: u16,
 	pub target_resizes: u8,
 	pub rng: u64,
+	/// single-threaded warm-up (the map grows from 1 MiB through several resizes): 0 = batches only;
+	/// 1 = every batch is opened while the same thread holds an open Store::iter (scan-and-rewrite
+	/// loop); 2 = every second one
+	#[serde(default)]
+	pub warm_hold: u8,
 }
 
 fn plan_strategy() -> impl Strategy<Value = Plan> {
-	(1u8..=4, 1u8..=4, 0u8..=3, 2u8..=6, 10u16..=40, 0u16..=60, 20u16..=250, 2u8..=3, any::<u64>()).prop_map(
-		|(writers, readers, extra_groups, keys_per_group, min_kib, span, hold_ms, target_resizes, rng)| Plan {
+	(1u8..=4, 1u8..=4, 0u8..=3, 2u8..=6, 10u16..=40, 0u16..=60, 20u16..=250, 2u8..=3, any::<u64>(), prop_oneof![2 => Just(0u8), 1 => Just(1u8), 1 => Just(2u8)]).prop_map(
+		|(writers, readers, extra_groups, keys_per_group, min_kib, span, hold_ms, target_resizes, rng, warm_hold)| Plan {
 			writers,
 			readers,
 			groups: writers + extra_groups.min(6 - writers.min(6)),
@@ -836,6 +841,7 @@ fn plan_strategy() -> impl Strategy<Value = Plan> {
 			hold_ms,
 			target_resizes,
 			rng,
+			warm_hold,
 		},
 	)
 }
@@ -1357,6 +1363,7 @@ fn conc_child(plan: &Plan, dir: &Path) -> Value {
 	let need = 40 * openers as u64 * plan.max_kib as u64 * 1024;
 	let mut rng = Rng::new(plan.rng, 1);
 	let mut warm = 0u64;
+	let mut warm_held = 0u64;
 	loop {
 		let map = map_size(dir).unwrap_or(0);
 		if map_sizes.last() != Some(&map) {
@@ -1372,10 +1379,35 @@ fn conc_child(plan: &Plan, dir: &Path) -> Value {
 		}
 		let g = (warm % plan.groups as u64) as usize;
 		let payload = ((map / 40) as usize).min(plan.max_kib as usize * 1024).max(1024);
-		if let Err(f) = do_batch(&sh, &store, 0, g, payload, rng.below(10)) {
+		// scan-and-rewrite: the batch is opened (and committed) while this thread holds an open
+		// iterator = an open read transaction of its own
+		let hold = plan.warm_hold == 1 || (plan.warm_hold == 2 && warm % 2 == 0);
+		let mut held: Option<DatabaseIterator<'static, ItemFn, Item>> = None;
+		if hold {
+			match store.iter(dbk(gkey_db(g, 0)), item_of as ItemFn) {
+				Ok(mut it) => {
+					let _ = it.next();
+					held = Some(it);
+				}
+				Err(e) => return failv(&dberr("conc", "Store::iter (warm-up)", e), json!({"phase": "warm-up"})),
+			}
+			warm_held += 1;
+		}
+		let r = do_batch(&sh, &store, 0, g, payload, rng.below(10));
+		drop(held);
+		if let Err(f) = r {
 			// single-threaded: a full map here cannot be the concurrent skip of the size check
-			let f = if f.sig == "conc:map-full" { Fail::new("conc:warmup-map-full", format!("single-threaded warm-up, batch {} of {} bytes payload with map sizes {:?}: {}", warm, payload, map_sizes, f.msg)) } else { f };
+			let f = if f.sig == "conc:map-full" { Fail::new("conc:warmup-map-full", format!("single-threaded warm-up (warm_hold {}: {} of {} batches opened while the thread held an iterator), batch {} of {} bytes payload with map sizes {:?}: {}", plan.warm_hold, warm_held, warm + 1, warm, payload, map_sizes, f.msg)) } else { f };
 			return failv(&f, json!({"phase": "warm-up", "map_sizes": map_sizes, "batches": warm}));
+		}
+		if hold && file_used(dir) as f64 > 0.9 * map as f64 {
+			// a resize that falls due while transactions are open is carried out by a background thread
+			// that polls (every 100 ms) for a moment without open transactions: a loop that holds an
+			// iterator almost all the time has to leave it that moment — wait (bounded) for the map to grow
+			let t = Instant::now();
+			while t.elapsed() < Duration::from_millis(1500) && map_size(dir).unwrap_or(0) == map {
+				std::thread::sleep(Duration::from_millis(10));
+			}
 		}
 		warm += 1;
 	}
@@ -1468,6 +1500,7 @@ fn conc_child(plan: &Plan, dir: &Path) -> Value {
 		json!({
 			"map_sizes": map_sizes,
 			"warm_up_batches": warm,
+			"warm_up_batches_opened_holding_an_iterator": warm_held,
 			"warm_up_resizes": warm_resizes,
 			"resizes": map_sizes.len() - 1 - warm_resizes,
 			"batches": sh.batches.load(Ordering::Relaxed),
@@ -1609,6 +1642,10 @@ fn conc_once(ctx: &Ctx, plan: &Plan, counting: bool) -> PResult {
 					let slow = stats["slow_batch_opens"].as_u64().unwrap_or(0);
 					if slow > 0 {
 						ev.class("conc_runs_with_batch_open_delayed_by_resize");
+					}
+					ev.class(&format!("conc_warm_up_scan_and_rewrite_mode:{}", plan.warm_hold));
+					if plan.warm_hold != 0 {
+						ev.class_n("conc_warm_up_resizes_with_batches_opened_holding_an_iterator", stats["warm_up_resizes"].as_u64().unwrap_or(0));
 					}
 					// non-trivial: a resize during the concurrent phase with reader
 					// snapshots completed both before and after it
